@@ -251,6 +251,10 @@ class C06(TraceProp):
             c = proggen.core_sp_case(rng)
             c.update({'kind': 'sp', 'released': ['sp_commit'] in c['program']})
             yield c
+        for _ in range(12 if tier == 'quick' else 400):
+            c = proggen.sp_then_touch_case(rng)
+            c.update({'kind': 'sp', 'released': ['sp_rollback'] not in c['program']})
+            yield c
 
     def run_case(self, case):
         if case['kind'] == 'fault':
